@@ -191,6 +191,10 @@ struct Machine {
     sp: Spec,
     inits: Vec<Known>,
     pool: Vec<Known>,
+    /// points every reached state is compared with (`==`, `ct_eq`): all eight torsion
+    /// translates of the pool multipliers, so that pairs that differ only by a torsion point
+    /// (in particular the two order-4 points with y = 0, and P vs -P) are always among them
+    eqpool: Vec<Known>,
     max_depth: u8,
     ctx: usize,
 }
@@ -264,7 +268,16 @@ impl Model for Machine {
                     Some((_, j)) => *j,
                     None => torsion_index(&k.pt),
                 };
-                let bad = check_point_t(&self.sp, &k.real, &k.pt, &k.aj, Some(tor), true).err().map(|e| format!("initial point {}: {}", k.name, e));
+                let mut bad = check_point_t(&self.sp, &k.real, &k.pt, &k.aj, Some(tor), true).err().map(|e| format!("initial point {}: {}", k.name, e));
+                if bad.is_none() {
+                    for e in &self.eqpool {
+                        let want = k.pt == e.pt;
+                        if (k.real == e.real) != want {
+                            bad = Some(format!("initial point {} == {} gives {} but model says {}", k.name, e.name, k.real == e.real, want));
+                            break;
+                        }
+                    }
+                }
                 St { depth: 0, c: coords_of(&k.real), m: k.pt, aj: k.aj.clone(), tor, bad }
             })
             .collect()
@@ -290,10 +303,11 @@ impl Model for Machine {
         let tor = tor_step(a, s.tor, &self.pool);
         Some(match step(a, &p, &s.m, &s.aj, &self.pool) {
             Ok((q, m, aj)) => {
-                // equality against every pool point
-                for k in &self.pool {
-                    if (q == k.real) != (m == k.pt) {
-                        return Some(fail(format!("== {} gives {} but model says {}", k.name, q == k.real, m == k.pt)));
+                // equality against every point of the equality pool, both ways
+                for k in &self.eqpool {
+                    let want = m == k.pt;
+                    if (q == k.real) != want || (k.real == q) != want || bool::from(q.ct_eq(&k.real)) != want {
+                        return Some(fail(format!("== {} gives {} / {} but model says {}", k.name, q == k.real, k.real == q, want)));
                     }
                 }
                 if let Some((_, j)) = &aj {
@@ -464,7 +478,9 @@ pub fn run(ctx: &Ctx) {
     ctx.bound("machine_depth", json!(depth));
     ctx.bound("machine_pool", json!(mpool.len()));
     ctx.bound("machine_inits", json!(inits.len()));
-    let m = Machine { sp: spec(), inits, pool: mpool, max_depth: depth, ctx: ctx as *const Ctx as usize };
+    let eqpool = pool(if quick { 3 } else { 5 }, true);
+    ctx.bound("machine_equality_pool", json!(eqpool.len()));
+    let m = Machine { sp: spec(), inits, pool: mpool, eqpool, max_depth: depth, ctx: ctx as *const Ctx as usize };
     let o = crate::bfs::explore(&m, depth as usize, |s| s.bad.clone(), 8);
     crate::bfs::finish(ctx, "ed.machine", &o, depth as usize);
     ctx.sample_tag("machine", json!({"depth": depth, "note": "BFS over raw (X,Y,Z,T) representations; each transition = one real group operation checked against the affine law, curve equation, compress and predicates"}));
